@@ -391,9 +391,13 @@ where
         A: GLWEInfos,
         B: BDDKeyInfos,
     {
-        self.circuit_bootstrapping_execute_tmp_bytes(block_size, extension_factor, res_infos, &bdd_infos.cbt_infos())
+        // This is also the per-thread region size of the multi-threaded variant: regions handed out by
+        // `split_mut` start on aligned addresses, so the size has to be a multiple of the alignment for
+        // `threads * fhe_uint_prepare_tmp_bytes` to be enough.
+        (self.circuit_bootstrapping_execute_tmp_bytes(block_size, extension_factor, res_infos, &bdd_infos.cbt_infos())
             + GGSW::bytes_of_from_infos(res_infos)
-            + LWE::bytes_of_from_infos(bits_infos)
+            + LWE::bytes_of_from_infos(bits_infos))
+        .next_multiple_of(poulpy_hal::DEFAULTALIGN)
     }
 
     fn fhe_uint_prepare_custom_multi_thread<DM, DB, DK, K, T: UnsignedInteger>(
